@@ -34,8 +34,23 @@ pub fn adapter_checks(prev: &blake3::Hasher, succ: &blake3::Hasher, bytes: &[u8]
             Ok(Err(e)) => return Some(("update_reader:error".into(), "Ok".into(), format!("Err({})", e))),
             Err(m) => return Some(("update_reader:panic".into(), "no panic".into(), m)),
         }
-        if subject::hasher_bytes(&r) != want {
-            return Some(("update_reader:state-differs-from-update".into(), "same state as update".into(), "state differs".into()));
+        // update_reader feeds its 64 KiB buffer, so beyond that size it is a *sequence* of updates:
+        // the representation may differ (lazy merging), the observable state may not.
+        if bytes.len() <= 65536 {
+            if subject::hasher_bytes(&r) != want {
+                return Some(("update_reader:state-differs-from-update".into(), "same state as update".into(), "state differs".into()));
+            }
+        } else {
+            let same = vcommon::catch(|| {
+                let mut a = [0u8; 131];
+                let mut b = [0u8; 131];
+                r.finalize_xof().fill(&mut a);
+                succ.finalize_xof().fill(&mut b);
+                r.count() == succ.count() && r.finalize() == succ.finalize() && a == b
+            });
+            if same != Ok(true) {
+                return Some(("update_reader:result-differs-from-update".into(), "same count/hash/xof as update".into(), format!("{:?}", same)));
+            }
         }
         rep.inc("adapter_reader_checks");
     }
